@@ -239,6 +239,8 @@ var c16SlotSyms = []string{"i:a", "i:b", "x:a", "x:b", "c:a", "c:b", "c:z", "a:1
 func runC16(c *gen.Ctx) error {
 	r := c.R
 	e := c.E
+	// ---- the runner's consumer of the tracer (testResults.fetchTrace)
+	c16ResultsGen(c)
 	// ---- Tracer: every operation order up to maxLen
 	maxLen := 4
 	peekBudget := 120
